@@ -407,15 +407,19 @@ fn fam_random(rng: &mut Rng) -> Cfg {
 /// Grammars that are certainly not LALR(1): ambiguous operators, dangling else,
 /// LR(1)-not-LALR(1) — several independent conflicts side by side.
 pub fn fam_conflict(rng: &mut Rng) -> Cfg {
+    fam_conflict_n(rng, 1, 4)
+}
+
+pub fn fam_conflict_n(rng: &mut Rng, lo: usize, hi: usize) -> Cfg {
     let mut c = Cfg::new("conflict");
     let s = c.nt("Top");
     c.start = s;
-    let k = rng.range(1, 4);
+    let k = rng.range(lo, hi);
     for i in 0..k {
         let tag = c.term(&format!("Tag{}", i));
         match rng.below(5) {
             4 => {
-                let sub = fam_lr1ish(rng);
+                let sub = if rng.chance(1, 2) { fam_lr1ish(rng) } else { fam_lr1ish_deep(rng) };
                 let st = embed(&mut c, &sub);
                 c.rule(s, vec![T(tag), N(st)]);
             }
@@ -701,6 +705,81 @@ pub fn fam_lr1ish(rng: &mut Rng) -> Cfg {
     c
 }
 
+/// Like `fam_lr1ish`, with what makes the construction *history* matter: contexts of different
+/// depth, recursive wrappers that feed lookaheads into a state late (W -> o W z | k Slot), and
+/// slots whose alternatives end in X (inheriting the context's lookahead) or in X followed by a
+/// token: Slot -> Left | Right y.
+pub fn fam_lr1ish_deep(rng: &mut Rng) -> Cfg {
+    let mut c = Cfg::new("lr1ish-deep");
+    let top = c.nt("Top");
+    c.start = top;
+    let nx = rng.range(2, 3);
+    let xs: Vec<usize> = (0..nx).map(|i| c.nt(["Left", "Right", "Middle"][i])).collect();
+    let x = c.term("Core");
+    for n in &xs {
+        c.rule(*n, vec![T(x)]);
+    }
+    let pool = rng.range(2, 4);
+    let ss: Vec<usize> = (0..pool).map(|i| c.term(&format!("Suf{}", i))).collect();
+    let contexts = rng.range(2, 4);
+    for i in 0..contexts {
+        // the slot of this context
+        let slot = c.nt(&format!("Slot{}", i));
+        let mut order: Vec<usize> = (0..pool).collect();
+        rng.shuffle(&mut order);
+        for (j, n) in xs.iter().enumerate() {
+            if rng.chance(1, 3) {
+                c.rule(slot, vec![N(*n)]); // inherits whatever may follow the slot
+            } else if j < pool {
+                c.rule(slot, vec![N(*n), T(ss[order[j]])]);
+            }
+        }
+        // how the context reaches its slot
+        let depth = rng.range(1, 3);
+        let mut prefix: Vec<Sym> = vec![];
+        for d in 0..depth {
+            let p = if rng.chance(1, 3) && i > 0 { c.terms.iter().position(|t| t == "Pre0_0").unwrap_or(0) } else { c.term(&format!("Pre{}_{}", i, d)) };
+            prefix.push(T(p));
+        }
+        match rng.below(3) {
+            0 => {
+                // flat: Top -> prefix Slot [suffix]
+                let mut rhs = prefix.clone();
+                rhs.push(N(slot));
+                if rng.chance(1, 2) {
+                    rhs.push(T(ss[rng.below(pool)]));
+                }
+                c.rule(top, rhs);
+            }
+            1 => {
+                // recursive wrapper: W -> o W z | k Slot ; Top -> W
+                let w = c.nt(&format!("Wrap{}", i));
+                let o = c.term(&format!("Open{}", i));
+                let z = ss[rng.below(pool)];
+                c.rule(w, vec![T(o), N(w), T(z)]);
+                let mut rhs = prefix.clone();
+                rhs.push(N(slot));
+                c.rule(w, rhs);
+                c.rule(top, vec![N(w)]);
+            }
+            _ => {
+                // two routes of different length to the same slot
+                let mut rhs = prefix.clone();
+                rhs.push(N(slot));
+                rhs.push(T(ss[rng.below(pool)]));
+                c.rule(top, rhs);
+                let extra = c.term(&format!("Long{}", i));
+                let mut rhs2 = vec![T(extra), T(extra)];
+                rhs2.extend(prefix.clone());
+                rhs2.push(N(slot));
+                rhs2.push(T(ss[rng.below(pool)]));
+                c.rule(top, rhs2);
+            }
+        }
+    }
+    c
+}
+
 /// Random structural mutation of a grammar (kiki itself filters out the conflicting results).
 pub fn mutate(c: &mut Cfg, rng: &mut Rng) -> &'static str {
     if c.rules.is_empty() {
@@ -891,7 +970,7 @@ fn fam_compose(rng: &mut Rng) -> Cfg {
     c.start = s;
     let k = if big { rng.range(4, 7) } else { rng.range(2, 3) };
     for i in 0..k {
-        let which = rng.below(13);
+        let which = rng.below(14);
         let sub = base_family(rng, which);
         let tag = c.term(&format!("Mode{}", i));
         let st = embed(&mut c, &sub);
@@ -916,6 +995,7 @@ fn base_family(rng: &mut Rng, which: usize) -> Cfg {
         10 => fam_prefixnest(rng),
         11 => fam_sharedprefix(rng),
         12 => fam_lr1ish(rng),
+        13 => fam_lr1ish_deep(rng),
         _ => fam_random(rng),
     }
 }
@@ -924,10 +1004,10 @@ pub const N_FAMILIES: usize = 11;
 
 /// Families meant to be accepted by kiki (random ones are filtered by kiki).
 pub fn accepted_family(rng: &mut Rng) -> Cfg {
-    let w = rng.weighted(&[3, 4, 3, 4, 2, 2, 2, 2, 3, 3, 3, 3, 2, 8, 3, 1]);
+    let w = rng.weighted(&[3, 4, 3, 4, 2, 2, 2, 2, 3, 3, 3, 3, 2, 3, 8, 3, 1]);
     let mut c = match w {
-        0..=13 => base_family(rng, w),
-        14 => fam_compose(rng),
+        0..=14 => base_family(rng, w),
+        15 => fam_compose(rng),
         _ => fam_wide(rng),
     };
     // structural mutations: small deviations from the textbook shapes are where
@@ -1111,7 +1191,7 @@ pub fn add_unproductive(c: &mut Cfg, rng: &mut Rng) {
     let n_before = c.nts.len();
     let u = c.nt("Abyss");
     let t1 = rng.below(c.terms.len());
-    match rng.below(7) {
+    match rng.below(8) {
         // right recursion without a base case: FIRST is not empty
         0 => c.rule(u, vec![T(t1), N(u)]),
         1 => {
@@ -1137,9 +1217,14 @@ pub fn add_unproductive(c: &mut Cfg, rng: &mut Rng) {
             c.rule(u, vec![N(u2), T(t1)]);
             c.rule(u2, vec![N(u)]);
         }
-        _ => {
+        6 => {
             // needs itself twice
             c.rule(u, vec![T(t1), N(u), N(u)]);
+        }
+        _ => {
+            // no rule at all: a variant-less enum. (On the pinned tree `generate` panics when such
+            // a nonterminal is referenced — C07, DESIGN section 9 — so stage 1 skips the grammar;
+            // a tree that accepts it gets explored.)
         }
     }
     // reference it from a live rule: at the end, in the middle, or right at the start of a
